@@ -17,7 +17,8 @@ RULE = (
     "branches x solver auto/newton, units E in {210, 7e4, 2e5, 2.1e11}) in 3D / plane strain / plane stress, "
     "driven through Behavior.Integrate on a (Ne,nPg) batch of independent piecewise-linear strain paths "
     "(load, turn, reverse, unload, hold; 1-8 steps per segment, amplitudes 0.3-8 yield strains); a point's "
-    "step is committed only when its converged flag is set. Non-trivial = some point has a plastic step "
+    "step is committed only when its converged flag is set, a batch refused by the plane-stress loop ends the "
+    "path. Non-trivial = some point has a plastic step "
     "(dp>0) followed by an elastic step. tangent: same generator, shorter paths, central differences at "
     "fixed zOld; non-trivial = >=1 kept direction at a flowing point. solvers: reducible behaviours only; "
     "non-trivial = a flowing point compared. elastic_limit: behaviours without internal variables. "
@@ -83,35 +84,10 @@ def strain6(beh, mode, eps, zOld, dt):
         raise
 
 
-def integrate_by_column(beh, mode, eps, zOld, dt, cls="", with_eps6=True):
-    """(sig, C_alg, z, converged, eps6) of a batch. The plane-stress loop asserts convergence for the whole batch;
-    when it refuses, the batch is re-run one Gauss-point column at a time (independent points: the batch layout
-    must not matter) and the refused columns are returned as non-converged (NaN outputs, flag False)."""
-    try:
-        out = integrate(beh, eps, zOld, dt, cls)
-        return tuple(out) + ((strain6(beh, mode, eps, zOld, dt),) if with_eps6 else ())
-    except Inconclusive:
-        if mode != "PS" or np.shape(eps)[1] == 1:
-            raise
-    Ne, nPg, nc = np.shape(eps)
-    z0 = np.asarray(zOld, float)
-    sig = np.full((Ne, nPg, nc), np.nan)
-    Calg = np.full((Ne, nPg, nc, nc), np.nan)
-    z1 = np.full(z0.shape, np.nan)
-    ok = np.zeros((Ne, nPg), bool)
-    eps6 = np.full((Ne, nPg, 6), np.nan)
-    for g in range(nPg):
-        zg = FeArray.asfearray(z0[:, g:g + 1].copy())
-        try:
-            s, C, z, o = integrate(beh, eps[:, g:g + 1], zg, dt, cls)
-            e6 = strain6(beh, mode, eps[:, g:g + 1], zg, dt) if with_eps6 else 0.0
-        except Inconclusive:
-            continue
-        sig[:, g:g + 1], Calg[:, g:g + 1], z1[:, g:g + 1] = np.asarray(s), np.asarray(C), np.asarray(z)
-        ok[:, g:g + 1], eps6[:, g:g + 1] = np.asarray(o, bool), e6
-    if not ok.any():
-        raise Inconclusive("plane-stress iteration did not converge (every column) " + cls)
-    return (sig, Calg, z1, ok, eps6) if with_eps6 else (sig, Calg, z1, ok)
+def integrate_with_strain(beh, mode, eps, zOld, dt, cls="", with_eps6=True):
+    """(sig, C_alg, z, converged[, eps6]) of a batch."""
+    out = integrate(beh, eps, zOld, dt, cls)
+    return tuple(out) + ((strain6(beh, mode, eps, zOld, dt),) if with_eps6 else ())
 
 
 def geq0(rec, values, scale, tol, oracle, msg, **sig):
@@ -216,10 +192,17 @@ def check_paths(case, rec):
     for k, eps in enumerate(strains):
         z0 = np.array(z, float)
         before = z0.tobytes()
-        out1 = integrate_by_column(beh, mode, eps, z, dt, cls)
-        rec.require(np.asarray(z).tobytes() == before, "zOld_unchanged",
-                    f"step {k}: Integrate modified the committed state it was given", **sg)
-        out2 = integrate_by_column(beh, mode, eps, z, dt, cls, with_eps6=False)
+        try:
+            out1 = integrate_with_strain(beh, mode, eps, z, dt, cls)
+            rec.require(np.asarray(z).tobytes() == before, "zOld_unchanged",
+                        f"step {k}: Integrate modified the committed state it was given", **sg)
+            out2 = integrate_with_strain(beh, mode, eps, z, dt, cls, with_eps6=False)
+        except Inconclusive:
+            # the plane-stress loop refused the whole batch: the path ends here (steps checked so far stand)
+            if k == 0:
+                raise
+            rec.label("path_truncated:plane_stress_refused")
+            break
         rec.require(np.asarray(z).tobytes() == before, "zOld_unchanged",
                     f"step {k}: Integrate modified the committed state it was given (2nd call)", **sg)
         rec.require(all(identical(a, b) for a, b in zip(out1, out2)), "repeatable",
@@ -629,7 +612,7 @@ SUBS = [
     Sub("paths_3d", check_paths, gen=path_cases(("3D",)), quick=110, thorough=1500, shards=6,
         doc="pointwise oracles + purity along generated strain paths, 3D"),
     Sub("paths_pstrain", check_paths, gen=path_cases(("PE",)), quick=110, thorough=1500, shards=4),
-    Sub("paths_pstress", check_paths, gen=path_cases(("PS",)), quick=36, thorough=800, shards=6),
+    Sub("paths_pstress", check_paths, gen=path_cases(("PS",)), quick=40, thorough=800, shards=6),
     Sub("tangent", check_tangent, gen=tangent_cases, quick=120, thorough=1500, shards=6),
     Sub("solvers", check_solvers, gen=solver_cases, quick=120, thorough=1500, shards=4),
     Sub("elastic_limit", check_elastic, gen=elastic_cases, quick=200, thorough=2000, shards=2),
